@@ -12,3 +12,15 @@ Definition std_rate (b : baudrate) : Z :=
 
 (* every rate the code uses is the standard one (run as an oracle on every fdl / bus case) *)
 Definition rates_standard_ok : bool := forallb (fun b => baud_to_rate b =? std_rate b) all_baudrates.
+
+(* Which FDL request kinds are answered (acknowledged or replied to) is fixed by the standard as well:
+   SDA and SRD services, the multicast SRD, and the FDL status / ident / LSAP status requests are answered;
+   SDN (send data with no acknowledge) and the clock / time-event broadcasts are not.  Hand-written by name. *)
+Definition std_expects_reply (r : req_type) : bool :=
+  match r with
+  | RqSdnLow | RqSdnHigh | RqClockValue | RqTimeEvent => false
+  | RqSdaLow | RqSdaHigh | RqSrdLow | RqSrdHigh | RqMulticastSrd | RqFdlStatus | RqIdent | RqLsapStatus => true
+  end.
+
+Definition expects_reply_standard_ok : bool :=
+  forallb (fun r => Bool.eqb (req_expects_reply r) (std_expects_reply r)) all_req_types.
